@@ -2,8 +2,8 @@ import Driver.Core
 import RrModel.RedirectCache
 import RrModel.Spec.C18Cache
 import RrModel.Generated.Facts
-/- streams: sysrc, kf.C18-c, kf.C18-d — restart_on_redirect through cache-enabled rules, as
-   histories (cold, warm, ticks) on one cache (C18); kf.C18-c is the regression stream of the
+/- streams: sysrc, kf.C18-c, kf.C18-d, kf.C09-b.sysrc — restart_on_redirect through cache-enabled rules, as
+   histories (cold, warm, ticks, stale hops revalidated by 304) on one cache (C18); kf.C18-c is the regression stream of the
    repaired finding C18-c (a loop of stored hops: now ended by the hop counter with 508) -/
 open Go Model Proto Model.Redirect Model.RedirectCache Spec.C18 Spec.C18Cache
 
@@ -16,9 +16,11 @@ def pCNode : P CNode := do
   let body ← pBytes
   let location ← pBytes
   let cc ← pBytes
+  let etag ← pBytes
+  let cc304 ← pBytes
   let intended ← pInt
   let ruleIdx ← pInt
-  pure { path, redirect, status, body, location, cc, intended, ruleIdx }
+  pure { path, redirect, status, body, location, cc, intended, ruleIdx, etag, cc304 }
 
 def pReqOp : P ReqOp := do
   let k ← tok
@@ -32,18 +34,26 @@ def pReqOp : P ReqOp := do
   else throw s!"bad op {k}"
 
 /-- the scripted origin: any known host answers a plain http(s) URL, keyed by the request path;
-    an unknown path is a 404 "unknown"; anything else refuses the connection -/
+    an unknown path is a 404 "unknown"; anything else refuses the connection.  A node with a
+    validator answers a request whose If-None-Match names it with 304 (ETag, Cache-Control: its
+    own `cc304`, else the node's) -/
 def originOf (nodes : List CNode) (known : List Bytes) (c : Contact) : Option OResp :=
   if (c.url.scheme = b!"http" ∨ c.url.scheme = b!"https") ∧ known.contains c.url.host then
     match nodes.find? (·.path = c.url.path) with
-    | some n => some { status := n.status, location := if n.redirect then n.location else [], cacheControl := n.cc, body := n.body }
+    | some n =>
+      if n.etag ≠ [] ∧ Header.get c.headers b!"If-None-Match" = n.etag then
+        some { status := 304, cacheControl := if n.cc304 ≠ [] then n.cc304 else n.cc, etag := n.etag }
+      else
+        some { status := n.status, location := if n.redirect then n.location else [], cacheControl := n.cc, body := n.body, etag := n.etag }
     | none => some { status := 404, body := b!"unknown" }
   else none
 
-def contactTok (c : ContactObs) : String :=
-  s!"{toHex c.host} {toHex c.uri} {toHex c.hostField} {if c.failed then 1 else 0} {toHex c.xhop} {toHex c.via}"
+/-- one contact: what `Spec.C18.ContactObs` holds, then the If-None-Match it carried -/
+def contactTok (k : Contact) : String :=
+  let c := obsOfContact k
+  s!"{toHex c.host} {toHex c.uri} {toHex c.hostField} {if c.failed then 1 else 0} {toHex c.xhop} {toHex c.via} {toHex (Header.get k.headers b!"If-None-Match")}"
 
-def contactsTok (cs : List ContactObs) : String :=
+def contactsTok (cs : List Contact) : String :=
   " ".intercalate (toString cs.length :: cs.map contactTok)
 
 def ageTok (a : Option Int) : String :=
@@ -61,9 +71,9 @@ def sentTok : Sent → String
 def shown : Nat := 8
 
 def outcomeTok : RedirectCache.Outcome → String
-  | .done d => s!"R {sentTok d.sent} {contactsTok (d.contacts.map obsOfContact)}"
-  | .runaway cs => s!"runaway {contactsTok ((cs.take shown).map obsOfContact)}"
-  | .selfwait cs => s!"selfwait {contactsTok ((cs.take shown).map obsOfContact)}"
+  | .done d => s!"R {sentTok d.sent} {contactsTok d.contacts}"
+  | .runaway cs => s!"runaway {contactsTok (cs.take shown)}"
+  | .selfwait cs => s!"selfwait {contactsTok (cs.take shown)}"
 
 def pContactObs : P ContactObs := do
   let host ← pBytes
@@ -72,6 +82,7 @@ def pContactObs : P ContactObs := do
   let failed ← pBool
   let xhop ← pBytes
   let via ← pBytes
+  let _inm ← pBytes
   pure { host, uri, hostField, failed, xhop, via }
 
 /-- the implementation's tokens for one request -/
@@ -106,6 +117,8 @@ def letterOf (cfg : RedirectCache.Cfg) : RedirectCache.Outcome → String
     | .outside => "o"
     | .response st _ _ inc =>
       if cfg.isRedirect st then "r"
+      -- a stored entry was offered to the origin for confirmation (If-None-Match sent)
+      else if d.contacts.any (fun k => Header.get k.headers b!"If-None-Match" ≠ []) then "v"
       else if d.contacts.isEmpty then "w"
       else if inc.status = b!"hit" then "h" else "c"
     | _ => "e"
@@ -138,7 +151,8 @@ def hSysRC : Handler := fun impl => do
   let cls : List String := (reqs.flatMap fun (t, s) =>
     let chain := chainOf nodes rules edge t s
     if ¬ allRestart chain then [] else
-    (if inClass_C18_d nodes chain then ["C18-d"] else [])).eraseDups
+    (if inClass_C18_d nodes chain then ["C18-d"] else []) ++
+    (if inClass_C09_b nodes chain (ops.any fun o => match o with | .tick _ => true | _ => false) then ["C09-b"] else [])).eraseDups
   let (oracle, skips) : String × List String :=
     match run (pAll pRObs) impl with
     | .ok obs =>
@@ -153,6 +167,6 @@ def hSysRC : Handler := fun impl => do
   return { model := model, oracle := oracle, cls := if cls.isEmpty then "-" else ",".intercalate cls, label := label }
 
 def handlers : List (String × Handler) := [
-  ("sysrc", hSysRC), ("kf.C18-c", hSysRC), ("kf.C18-d", hSysRC) ]
+  ("sysrc", hSysRC), ("kf.C18-c", hSysRC), ("kf.C18-d", hSysRC), ("kf.C09-b.sysrc", hSysRC) ]
 
 end H.SysRC
